@@ -137,6 +137,7 @@ void harness(void)
       }
     }
     VF_ASSERT(seen, "C04: result NUL-terminated inside the 384-byte output field");
+    VF_ASSERT(n < OUT_BOUND, "C06: result is not longer than setting + digest (no residue of an earlier, longer result appended)");
     VF_ASSERT(n >= PLEN + HASH_LEN, "C06: result has prefix and a full-length digest");
     for (size_t j = 0; j < PLEN; j++)
       VF_ASSERT(vf_output[j] == PREFIX_STR[j], "C06: hash begins with the method prefix of the setting");
@@ -150,8 +151,15 @@ void harness(void)
 #ifdef SHAPE_CHECK
     SHAPE_CHECK
 #endif
-    /* accepted as a setting, selecting the same method */
+#ifdef MUST_REJECT
+    /* malformed parameters must be refused (C05): method-specific predicate over the setting */
+    { _Bool bad = 0; MUST_REJECT VF_ASSERT(!bad, "C05: a setting with malformed parameters or salt is refused, not hashed"); }
+#endif
+    /* accepted as a setting, selecting the same method (only scanned when the result is a
+       terminated string of plausible length: a missing NUL is reported above, not as a loop bound) */
+    if (seen && n < OUT_BOUND)
     VF_ASSERT(!__CPROVER_file_local_crypt_c_check_badsalt_chars(vf_output), "C06: hash passes the generic setting filter");
+    if (seen && n < OUT_BOUND)
     VF_ASSERT(__CPROVER_file_local_crypt_c_get_hashfn(vf_output) != 0 &&
               __CPROVER_file_local_crypt_c_get_hashfn(vf_output) ==
               __CPROVER_file_local_crypt_c_get_hashfn(setting), "C06: hash selects the same method as the setting");
